@@ -21,3 +21,26 @@ static inline bool EntryMap_contains(const EntryMap *m, qstr k) { (void)m; (void
 static inline void EntryMap_insert(EntryMap *m, qstr k, const RosterItem *v) { (void)k; (void)v; m->opaque = nondet_int(); }
 #define FROM(e) qdom_attribute((e), S("from"))
 #define ROSTER_AUTHORISED(e) (FROM(e) == 0 || __CPROVER_uninterpreted_jid_bare(FROM(e)) == gh_cfg_jidBare)
+/* ---- managers built on QXmpp::handleIqRequests (QXmppIqHandling.h) */
+typedef struct TupleBQQ { bool f0; qstr f1; qstr f2; } TupleBQQ;          /* std::tuple<bool, QString, QString> */
+static inline void TupleBQQ_ctor(TupleBQQ *t, bool a, qstr b, qstr c) { t->f0 = a; t->f1 = b; t->f2 = c; }
+/* std::variant<SomeIq, QXmppStanza::Error>: index + both alternatives (only the active one is meaningful) */
+typedef struct IqOrError { int index; QXmppIq alt0; StanzaError alt1; } IqOrError;
+static inline void IqOrError_fromIq(IqOrError *v, const QXmppIq *q) { v->index = 0; v->alt0 = *q; v->alt1.type = -1; v->alt1.cond = -1; }
+static inline void IqOrError_fromError(IqOrError *v, const StanzaError *e) { v->index = 1; v->alt1 = *e; QXmppIq_ctor0(&v->alt0); }
+static inline void QXmppIq_setE2ee(QXmppIq *q, const OptE2ee *m) { (void)q; (void)m; }
+static inline void QXmppIq_setStr(QXmppIq *q, qstr v) { (void)q; (void)v; }     /* payload setters: not part of the addressing */
+static inline void QXmppIq_setInt(QXmppIq *q, int v) { (void)q; (void)v; }
+typedef struct QXmppVersionManager { int opaque; } QXmppVersionManager;
+typedef struct QXmppEntityTimeManager { int opaque; } QXmppEntityTimeManager;
+typedef struct QXmppDiscoveryManagerPrivate { qstr clientCapabilitiesNode; } QXmppDiscoveryManagerPrivate;
+typedef struct QXmppDiscoveryManager { QXmppDiscoveryManagerPrivate *d; } QXmppDiscoveryManager;
+/* Qt date/time values used by QXmppEntityTimeManager::handleIq: opaque numbers (A-QDATETIME: the functions return some value) */
+typedef long qdatetime; typedef int qtimezone;
+static inline void qdatetime_setTimeZone(qdatetime *d, qtimezone z) { (void)z; *d = nondet_long(); }
+static inline void QXmppIq_setLong(QXmppIq *q, long v) { (void)q; (void)v; }
+/* QXmppDiscoveryManager::capabilities() (builds the caps answer from the installed extensions): assumed to write its
+   result only (it is not an emission point) and to return an IQ whose type member holds an enumerator of QXmppIq::Type
+   (src/client/QXmppDiscoveryManager.cpp:164-208 sets Result) */
+void Disco_capabilities(QXmppDiscoveryManager *self, QXmppIq *_ret) __CPROVER_requires(true) __CPROVER_assigns(*_ret)
+__CPROVER_ensures(_ret->type == QXmppIq_Type__Error || _ret->type == QXmppIq_Type__Get || _ret->type == QXmppIq_Type__Set || _ret->type == QXmppIq_Type__Result);
